@@ -592,6 +592,24 @@ Qed.
 
 (* a value supplied under one of the three code names sits, cleaned and zero-padded to the field width, at the
    published position (no bank code of combined width) *)
+Theorem fc_placed_any b k :
+  from_components e components T find_algo cc values = Ok b ->
+  (forall K, compute_national find_algo cc comps1 = Ok K -> shape_ok K) ->
+  fc_split components r comps0 = false ->
+  In k components -> text_eqb k k_national = false ->
+  get_slice b (fst (rng k)) (Some (snd (rng k))) = zfill (clean e (get_val k values)) (wd k)
+  /\ len (zfill (clean e (get_val k values)) (wd k)) = wd k.
+Proof using All.
+  intros H HK Hs Hin Hnn.
+  destruct (fc_result b H HK) as (K & _ & _ & _ & Hlen & Hget).
+  pose proof (Hlen k Hin) as Hl. rewrite (V1_nosplit k Hs Hin) in Hl. fold (G k). split; [|exact Hl].
+  destruct (range_is_empty (rng k)) eqn:Ee.
+  - pose proof (empty_range _ Ee) as Ep. unfold wd, range_length in Hl. rewrite Ep in *. cbn [fst snd] in *.
+    rewrite get_slice_00. destruct (G k); [reflexivity|]. unfold len in Hl. cbn [List.length] in Hl. lia.
+  - destruct (Hget k Hin Ee) as [Hg _]. rewrite Hg, V2_eq, Hnn. rewrite (V1_nosplit k Hs Hin).
+    destruct K; reflexivity.
+Qed.
+
 Theorem fc_placed b k :
   from_components e components T find_algo cc values = Ok b ->
   (forall K, compute_national find_algo cc comps1 = Ok K -> shape_ok K) ->
@@ -601,16 +619,10 @@ Theorem fc_placed b k :
   /\ len (zfill (clean e (get_val k values)) (wd k)) = wd k.
 Proof using All.
   intros H HK Hs Hk.
-  destruct (fc_result b H HK) as (K & _ & _ & _ & Hlen & Hget).
   destruct lay_facts as (_ & _ & _ & _ & Hb & Hbr & Hac & _ & _ & _ & Nbn & _ & Nrn & Nan).
   assert (Hin : In k components) by (destruct Hk as [-> | [-> | ->]]; assumption).
   assert (Hnn : text_eqb k k_national = false) by (destruct Hk as [-> | [-> | ->]]; assumption).
-  pose proof (Hlen k Hin) as Hl. rewrite (V1_nosplit k Hs Hin) in Hl. fold (G k). split; [|exact Hl].
-  destruct (range_is_empty (rng k)) eqn:Ee.
-  - pose proof (empty_range _ Ee) as Ep. unfold wd, range_length in Hl. rewrite Ep in *. cbn [fst snd] in *.
-    rewrite get_slice_00. destruct (G k); [reflexivity|]. unfold len in Hl. cbn [List.length] in Hl. lia.
-  - destruct (Hget k Hin Ee) as [Hg _]. rewrite Hg, V2_eq, Hnn. rewrite (V1_nosplit k Hs Hin).
-    destruct K; reflexivity.
+  exact (fc_placed_any b k H HK Hs Hin Hnn).
 Qed.
 
 (* a bank code of combined bank-plus-branch width is split across both fields *)
